@@ -43,7 +43,6 @@ long as the table is conflict free -- which `pureLR` asserts).
 from __future__ import annotations
 
 import hashlib
-import inspect
 import json
 import os
 import pathlib
@@ -545,6 +544,7 @@ class Spec:
         self.cache_key = self._cache_key(self._g)
         self._use_cache = use_cache
         self._tables_ready = False
+        self._startState = 0
 
     def _ensure_tables(self):
         if self._tables_ready:
